@@ -91,12 +91,16 @@ def main():
     ntriv = set()
     dist = {}
     covered = [0, 0]
+    covered2 = [0, 0]
     for sid, _ in items:
         v = hl.parse_verdict(vals.get(sid))
-        cv = hl.parse_covered(vals.get(sid))
-        if cv is not None:
+        ex = hl.parse_extras(vals.get(sid))
+        if ex:
             covered[0] += 1
-            covered[1] += int(cv)
+            covered[1] += int(ex[0])
+            if len(ex) > 1:
+                covered2[0] += 1
+                covered2[1] += int(ex[1])
         s = byid[sid]
         for k in P.classify(s, res[sid]):
             dist[k] = dist.get(k, 0) + 1
@@ -157,7 +161,7 @@ def main():
     deep_tried = 0
     if proj_fail and not mon_fail and not crashed and hasattr(P, "deepen") and not replay:
         # scenarios whose second component is false (C01: cyclic lock-order graph) first
-        cands = sorted(proj_fail, key=lambda x: hl.parse_covered(vals.get(x)) is not False)
+        cands = sorted(proj_fail, key=lambda x: (hl.parse_extras(vals.get(x)) or [None])[0] is not False)
         for sid0 in cands[:6]:
             variants = P.deepen(byid[sid0], rng)
             deep_tried += len(variants)
@@ -240,6 +244,7 @@ def main():
             "known_finding_hits": {k: len(v) for k, v in known_hits.items()},
             ("executions_with_acyclic_lock_order_graph" if pid == "C01" else
              "scenarios_meeting_whole_history_theorem_hypotheses"): (f"{covered[1]} of {covered[0]}") if covered[0] else "n/a",
+            **({"scenarios_meeting_the_hypotheses_of_C01_every_schedule": f"{covered2[1]} of {covered2[0]}"} if covered2[0] else {}),
             "variants_tried_after_a_mismatch": deep_tried,
             "agree_only_up_to_release_order_within_runs": len(tolerated),
             "framework_errors": len(framework), "exhaustive": bool(getattr(P, "EXHAUSTIVE", {}).get(tier, False)),
